@@ -176,7 +176,8 @@ Record exec_in := mkExec {
 Inductive op :=
 | OCreate (j : job) (vb : bool)   (* j carries the owner (= creator); vb = Job.ValidateBasic() passed *)
 | OExec (x : exec_in)             (* keeper ExecuteJob (msg server: sender = creator account, contract = nil) *)
-| OWasmExec (id raw : bytes) (caddr : bytes) (pre : bool) (pick : option Z) (atomic : bool).  (* bindings executeJob *)
+| OWasmExec (id raw : bytes) (caddr : bytes) (pre : bool) (pick : option Z) (atomic : bool)  (* bindings executeJob *)
+| OLegacyExec (id raw : bytes) (caddr : bytes) (pre : bool) (pick : option Z) (atomic : bool). (* legacy messenger *)
 
 Section Model.
   Variable dec_def : bytes -> option (bytes * bytes).   (* definition JSON -> (ABI, address) *)
@@ -264,11 +265,20 @@ Section Model.
     | _, _ => exec s (mkExec id (Some (wasm_wrap raw)) (Some caddr) (Some caddr) pre pick atomic)
     end.
 
+  (** customLegacyMessenger.DispatchMsg: the payload is wrapped BEFORE executeJobWasmEvent.valid()
+      looks at it, so only an empty job id is refused there *)
+  Definition legacy_exec (s : state) (id raw caddr : bytes) (pre : bool) (pick : option Z) (atomic : bool) : state * result :=
+    match id with
+    | [] => (s, Err EWasmInvalid)
+    | _ => exec s (mkExec id (Some (wasm_wrap raw)) (Some caddr) (Some caddr) pre pick atomic)
+    end.
+
   Definition step_res (s : state) (o : op) : state * result :=
     match o with
     | OCreate j vb => create s j vb
     | OExec x => exec s x
     | OWasmExec id raw caddr pre pick atm => wasm_exec s id raw caddr pre pick atm
+    | OLegacyExec id raw caddr pre pick atm => legacy_exec s id raw caddr pre pick atm
     end.
 
   Definition step (s : state) (o : op) : state := fst (step_res s o).
